@@ -52,7 +52,8 @@ Theorem C01_wf_check_sound : forall g order, wf_b g order = true -> wf g (fun i 
 Proof. exact wf_b_sound. Qed.
 Print Assumptions C01_wf_check_sound.
 
-(* F15 (refuted part): if a worker thread is killed by a BaseException raised by user code, the run never ends:
+(* F15 (why run_task must catch BaseException; fixed in /repo): if a worker thread were killed by a BaseException raised
+   by user code before the completion put (move MDie), the run would never end:
    a reachable state with a main loop that is not over and no enabled task move (other than the user pressing Ctrl-C,
    after which the main thread drains the completion queue forever) *)
 Theorem C01_worker_death_deadlocks_refuted :
